@@ -1,4 +1,4 @@
-"""Compile-fail witnesses W1-W8 (thorough tier): type-level premises of C01 / C02 / C11 / C12 / C13 / C18."""
+"""Compile-fail witnesses W1-W9 (thorough tier): type-level premises of C01 / C02 / C11 / C12 / C13 / C18."""
 from engine import rule, Ob, key_of
 from facts import AnchorError
 import witness
@@ -12,6 +12,7 @@ WIT = {
     "W6": ("C13", "handles are not Clone (E0599)"),
     "W7": ("C13", "Meta cannot be built or touched outside the crate; raw handle constructors are private (E0451 / E0616 / E0624)"),
     "W8": ("C11", "Allocator is sealed: no third implementation can exist downstream (E0277)"),
+    "W9": ("C12", "Owned<T, A> is Send / Sync only if T is (E0277)"),
 }
 ALSO = {"W3": ("C12",), "W4": ("C12",), "W7": ("C01",)}
 
